@@ -469,3 +469,19 @@ Section Legacy.
     - intros (r & Hr & Hc & Ht). right. exists r. split; [|exact Ht]. apply filter_In. auto.
   Qed.
 End Legacy.
+
+(* tags of a result = union over the rules whose condition is true of the tags they resolve to (either mode) *)
+Lemma tags_union : forall o m rules res t,
+  engine_match m rules o = Res res ->
+  (In t (tags res) <-> exists r, In r rules /\ o_cond o r = RTrue /\ In t (rtags o r)).
+Proof.
+  intros o m rules res t H. apply engine_match_res in H. destruct H as (_ & _ & H).
+  unfold tags. rewrite (finish_tags o m _ res H). apply final_tags_in.
+Qed.
+
+Lemma all_matching_spec : forall o m rules res,
+  engine_match m rules o = Res res -> all_matching res = filter (is_match o) rules.
+Proof.
+  intros o m rules res H. apply engine_match_res in H. destruct H as (_ & _ & H).
+  rewrite (finish_matching o m _ res H). reflexivity.
+Qed.
